@@ -242,6 +242,16 @@ impl<H: DnsHandle> DnssecDnsHandle<H> {
             RrsigVerificationOutcome::Insecure | RrsigVerificationOutcome::Bogus => false,
         });
 
+        // A validated RRset of the query type (or a CNAME) at the query name that was not expanded
+        // from a wildcard is a positive answer. NSEC/NSEC3 records a server put into the authority
+        // section anyway deny nothing about it, and must not be read as a NODATA proof.
+        let plain_positive = !must_validate_nsec
+            && answers.iter().any(|(key, rrset)| {
+                matches!(rrset.outcome, RrsigVerificationOutcome::Secure { .. })
+                    && key.name == LowerName::from(&query.name)
+                    && (key.record_type == query.query_type || key.record_type == RecordType::CNAME)
+            });
+
         if !authorities.is_empty()
             && authorities.iter().all(|(_, rrset)| {
                 rrset.records.iter().all(|x| x.proof == Proof::Insecure)
@@ -292,7 +302,12 @@ impl<H: DnsHandle> DnssecDnsHandle<H> {
         // Both NSEC and NSEC3 records cannot coexist during
         // transition periods, as per RFC 5515 10.4.3 and
         // 10.5.2
-        let nsec_proof = match (!nsec3s.is_empty(), !nsecs.is_empty(), must_validate_nsec) {
+        let plain_positive = plain_positive && message.response_code == ResponseCode::NoError;
+        let nsec_proof = match (
+            !nsec3s.is_empty() && !plain_positive,
+            !nsecs.is_empty() && !plain_positive,
+            must_validate_nsec,
+        ) {
             (true, false, _) => verify_nsec3(
                 &query,
                 find_soa_name(&message),
